@@ -74,6 +74,7 @@ class TransportAioHttpClient(AbstractMessagingTransport):
                 if msg.type == aiohttp.WSMsgType.BINARY:
                     async for frame in self._frame_parser.receive_data(msg.data, 0):
                         self._incoming_frame_queue.put_nowait(frame)
+            self._incoming_frame_queue.put_nowait(None)  # websocket closed or lost: the iteration just ends
         except asyncio.CancelledError:
             logger().debug('Asyncio task canceled: incoming_data_listener')
         except Exception:
@@ -109,6 +110,7 @@ class TransportAioHttpWebsocket(AbstractMessagingTransport):
             async for message in self._message_generator():
                 async for frame in self._frame_parser.receive_data(message, 0):
                     self._incoming_frame_queue.put_nowait(frame)
+            self._incoming_frame_queue.put_nowait(None)  # websocket closed or lost: the iteration just ends
         except asyncio.CancelledError:
             logger().debug('Asyncio task canceled: aiohttp_handle_incoming_ws_messages')
 
